@@ -16,6 +16,8 @@ Extended program syntax (superset of scope_gen's):
   ('filt', filt, body)                                 filt as above: {% filter replace('', e) %}
   ('break',) ('continue',) ('loopcall', e)             {% break %} {% continue %} {{ loop(e) }}
   ('calla', x, attr, [e..])                            {{ x.attr(e, ..) }}   (a macro stored in a namespace attribute)
+  call arguments may end with ('kw', name, e) items     m(e, name=e): keyword arguments; extra positional / keyword
+                                                        arguments reach the macro's special variables varargs / kwargs
   expr ('attr', 'loop', a)  a in index index0 first last length revindex
 """
 from __future__ import annotations
@@ -57,8 +59,10 @@ class RNS:
 
 
 class RMacro:
-    def __init__(self, kind, name, params, body, env, uses_caller):
-        self.kind, self.name, self.params, self.body, self.env, self.uses_caller = kind, name, params, body, env, uses_caller
+    def __init__(self, kind, name, params, body, env, uses_caller=None):
+        self.kind, self.name, self.params, self.body, self.env = kind, name, params, body, env
+        # does the macro use its special variable?  True / False / None (not determined by the rules, see special_use)
+        self.sp = {n: special_use(n, params, body) for n in ("caller", "kwargs", "varargs")}
 
     def __repr__(self):
         return f"<Macro {self.name!r}>" if self.kind == "macro" else "<Macro anonymous>"
@@ -127,6 +131,8 @@ def mentions(name, body):
             return e[1] == name
         if k == "tup":
             return any(ex(x) for x in e[1])
+        if k == "kw":
+            return ex(e[2])
         return False
 
     for s in body:
@@ -158,6 +164,156 @@ def mentions(name, body):
         if k == "calla" and (s[1] == name or any(ex(e) for e in s[3])):
             return True
     return False
+
+
+def is_param(name, body):
+    for s in body:
+        k = s[0]
+        if k == "macro" and (name in s[2] or is_param(name, s[3])):
+            return True
+        if k == "callb" and (name in s[1] or is_param(name, s[4])):
+            return True
+        if k == "if" and (is_param(name, s[2]) or is_param(name, s[3]) or is_param(name, s[4])):
+            return True
+        if k == "for" and (is_param(name, s[4]) or is_param(name, s[5])):
+            return True
+        if k in ("setb", "with", "filt") and is_param(name, s[2]):
+            return True
+    return False
+
+
+def _targets(t):
+    return [t] if isinstance(t, str) else list(t)
+
+
+def binds_anywhere(name, body):
+    """is `name` assigned / bound as a target or parameter anywhere in the text (nested bodies included)"""
+    for s in body:
+        k = s[0]
+        if k == "if" and (binds_anywhere(name, s[2]) or binds_anywhere(name, s[3]) or binds_anywhere(name, s[4])):
+            return True
+        if k == "for" and (name in _targets(s[1]) or binds_anywhere(name, s[4]) or binds_anywhere(name, s[5])):
+            return True
+        if k == "set" and name in _targets(s[1]):
+            return True
+        if k == "nsnew" and s[1] == name:
+            return True
+        if k == "setb" and (s[1] == name or binds_anywhere(name, s[2])):
+            return True
+        if k == "with" and (any(x == name for x, _ in s[1]) or binds_anywhere(name, s[2])):
+            return True
+        if k == "filt" and binds_anywhere(name, s[2]):
+            return True
+        if k == "macro" and (s[1] == name or name in s[2] or binds_anywhere(name, s[3])):
+            return True
+        if k == "callb" and (name in s[1] or binds_anywhere(name, s[4])):
+            return True
+    return False
+
+
+def free_read(name, body, hidden=False):
+    """(is there a read of `name` that can reach the variable of the enclosing macro, is the name DEFINITELY
+    rebound at the end of this statement list).  Scoping rules only: if-branches share the scope (a store in one
+    branch may not happen), loop / with / block-set / filter bodies are scopes of their own, with-values and loop
+    iterables are read outside, a nested macro or call block has special variables of its own (not followed)."""
+    def ex(e):
+        return mentions(name, [("out", [e])])
+
+    found = False
+    for s in body:
+        k = s[0]
+        if k == "out":
+            found |= (not hidden) and any(ex(e) for e in s[1])
+        elif k == "if":
+            found |= (not hidden) and ex(s[1])
+            ends = []
+            f1, h1 = free_read(name, s[2], hidden)
+            found |= f1
+            ends.append(h1)
+            for ei in s[3]:
+                found |= (not hidden) and ex(ei[1])
+                f2, h2 = free_read(name, ei[2], hidden)
+                found |= f2
+                ends.append(h2)
+            f3, h3 = free_read(name, s[4], hidden)
+            found |= f3
+            ends.append(h3)
+            hidden = hidden or all(ends)
+        elif k == "for":
+            found |= (not hidden) and ex(s[2])
+            inner = hidden or name in _targets(s[1])
+            if s[3] is not None:
+                found |= (not inner) and ex(s[3])
+            found |= free_read(name, s[4], inner or name == "loop")[0]
+            found |= free_read(name, s[5], hidden)[0]
+        elif k == "loopcall":
+            found |= (not hidden) and (name == "loop" or ex(s[1]))
+        elif k == "set":
+            found |= (not hidden) and ex(s[2])
+            hidden = hidden or name in _targets(s[1])
+        elif k == "seta":
+            found |= (not hidden) and (s[1] == name or ex(s[3]))
+        elif k == "nsnew":
+            found |= (not hidden) and (name == "namespace" or any(ex(e) for _, e in s[2]))
+            hidden = hidden or s[1] == name
+        elif k == "setb":
+            f1, h1 = free_read(name, s[2], hidden)
+            found |= f1
+            if len(s) > 3 and isinstance(s[3], (tuple, list)):
+                found |= (not hidden) and ex(s[3][1])
+            hidden = hidden or s[1] == name
+        elif k == "with":
+            found |= (not hidden) and any(ex(e) for _, e in s[1])
+            found |= free_read(name, s[2], hidden or any(x == name for x, _ in s[1]))[0]
+        elif k == "filt":
+            if isinstance(s[1], (tuple, list)):
+                found |= (not hidden) and ex(s[1][1])
+            found |= free_read(name, s[2], hidden)[0]
+        elif k == "macro":
+            hidden = hidden or s[1] == name
+        elif k == "callo":
+            found |= (not hidden) and (s[1] == name or any(ex(e) for e in s[2]))
+        elif k == "calla":
+            found |= (not hidden) and (s[1] == name or any(ex(e) for e in s[3]))
+        elif k == "callb":
+            found |= (not hidden) and (s[2] == name or any(ex(e) for e in s[3]))
+    return found, hidden
+
+
+def nested_mention(name, body):
+    """is `name` mentioned inside a nested macro / call-block body"""
+    for s in body:
+        k = s[0]
+        if k == "macro" and mentions(name, s[3]):
+            return True
+        if k == "callb" and mentions(name, s[4]):
+            return True
+        if k == "if" and (nested_mention(name, s[2]) or nested_mention(name, s[3]) or nested_mention(name, s[4])):
+            return True
+        if k == "for" and (nested_mention(name, s[4]) or nested_mention(name, s[5])):
+            return True
+        if k in ("setb", "with", "filt") and nested_mention(name, s[2]):
+            return True
+    return False
+
+
+def special_use(name, params, body):
+    """does a macro use its special variable `name` (caller / kwargs / varargs)?  True: it must accept the
+    corresponding arguments; False (never mentioned, or an ordinary parameter): it rejects them; None: the rules do
+    not decide."""
+    if name in params:
+        return False        # an ordinary parameter of that name
+    if free_read(name, body)[0]:
+        return True
+    if not mentions(name, body):
+        return False
+    if not binds_anywhere(name, body) and not nested_mention(name, body):
+        return True
+    return None             # mentioned, but every read is rebound or belongs to a nested macro: either answer is harmless
+
+
+class _Unspecified(Exception):
+    pass
 
 
 class Ref:
@@ -229,8 +385,8 @@ class Ref:
 
     # ------------------------------------------------------------ statements
     def apply_filter(self, f, text, inner):
-        """block filters: upper / lower / default(e) / replace('', e); the arguments are evaluated after the
-        body, in the block's own scope"""
+        """block filters: upper / lower / default(e) / replace('', e); the arguments stand in the tag, outside
+        the body: they are evaluated in the ENCLOSING scope (what the body assigns does not leak into them)"""
         if f == "u":
             return text.upper()
         if f == "l":
@@ -243,16 +399,35 @@ class Ref:
             return self.sized(text.replace("", v))      # python's own str.replace: the value between all characters
         return text      # default(value, arg): the text is defined
 
-    def call(self, f, args, caller):
+    def call(self, f, args, caller, kws=()):
         if isinstance(f, RMacro):
-            if len(args) > len(f.params):
-                raise TypeError("too many arguments")
-            if caller is not None and not f.uses_caller:
-                raise TypeError("caller")
             sc = {}
-            for i, p in enumerate(f.params):
-                sc[p] = args[i] if i < len(args) else U()
-            if f.uses_caller:
+            n = len(f.params)
+            for i, p in enumerate(f.params[:len(args)]):
+                sc[p] = args[i]
+            extra, kw_extra = tuple(args[n:]), {}
+            for k, v in kws:
+                if k in f.params:
+                    if k in sc:
+                        raise TypeError("multiple values")
+                    sc[k] = v
+                else:
+                    kw_extra[k] = v
+            for p in f.params:
+                sc.setdefault(p, U())
+            if caller is not None and f.sp["caller"] is False and f.sp["kwargs"] is not False:
+                raise _Unspecified()        # a caller handed to a macro that only collects keyword arguments
+            for name, given in (("varargs", bool(extra)), ("kwargs", bool(kw_extra)), ("caller", caller is not None)):
+                use = f.sp[name]
+                if given and use is None:
+                    raise _Unspecified()
+                if given and use is False:
+                    raise TypeError(name)
+            if f.sp["varargs"]:
+                sc["varargs"] = extra
+            if f.sp["kwargs"]:
+                sc["kwargs"] = kw_extra
+            if f.sp["caller"]:
                 sc["caller"] = caller if caller is not None else U()
             self.depth += 1
             if self.depth > 120:
@@ -266,12 +441,21 @@ class Ref:
         if f is NSCTOR:
             if args:
                 raise TypeError("namespace")
-            return RNS({})
+            return RNS(list(kws))
         if isinstance(f, U):
             raise RefUndefinedError()
         if isinstance(f, RLoop):
             raise TypeError("loop is not recursive")
         raise TypeError("not callable")
+
+    def evargs(self, env, es):
+        args, kws = [], []
+        for e in es:
+            if e[0] == "kw":
+                kws.append((e[1], self.ev(env, e[2])))
+            else:
+                args.append(self.ev(env, e))
+        return args, kws
 
     def assign(self, env, target, v):
         if isinstance(target, str):
@@ -409,7 +593,7 @@ class Ref:
             try:
                 text = self.block(inner, s[2])
                 if len(s) > 3 and s[3] is not None:
-                    text = self.apply_filter(s[3], text, inner)
+                    text = self.apply_filter(s[3], text, env)
             finally:
                 self.leave(inner[0])
             env[0][s[1]] = text
@@ -423,25 +607,25 @@ class Ref:
         if k == "filt":
             inner = [{}] + env
             try:
-                return self.apply_filter(s[1], self.block(inner, s[2]), inner)
+                return self.apply_filter(s[1], self.block(inner, s[2]), env)
             finally:
                 self.leave(inner[0])
         if k == "macro":
-            env[0][s[1]] = RMacro("macro", s[1], s[2], s[3], env, mentions("caller", s[3]))
+            env[0][s[1]] = RMacro("macro", s[1], s[2], s[3], env)
             return ""
         if k == "callo":
             f = self.lookup(env, s[1])
-            args = [self.ev(env, e) for e in s[2]]
-            return str(self.call(f, args, None))
+            args, kws = self.evargs(env, s[2])
+            return str(self.call(f, args, None, kws))
         if k == "calla":
             f = self.getattr(self.lookup(env, s[1]), s[2])
-            args = [self.ev(env, e) for e in s[3]]
-            return str(self.call(f, args, None))
+            args, kws = self.evargs(env, s[3])
+            return str(self.call(f, args, None, kws))
         if k == "callb":
-            cl = RMacro("caller", None, s[1], s[4], env, mentions("caller", s[4]))
+            cl = RMacro("caller", None, s[1], s[4], env)
             f = self.lookup(env, s[2])
-            args = [self.ev(env, e) for e in s[3]]
-            return str(self.call(f, args, cl))
+            args, kws = self.evargs(env, s[3])
+            return str(self.call(f, args, cl, kws))
         raise ValueError(s)
 
     def render(self, p):
@@ -450,7 +634,7 @@ class Ref:
             text = self.block([top], p)
         except (_Break, _Continue):
             return ("err", "loopcontrol-outside-loop")
-        except _Budget:
+        except (_Budget, _Unspecified):
             return ("skip",)
         except RefUndefinedError:
             return ("err", "UndefinedError")
@@ -503,6 +687,8 @@ def real_render2(env, src, mk):
 
 # ------------------------------------------------------------------ printers for the extended syntax
 def e2_src(e):
+    if e[0] == "kw":
+        return e[1] + "=" + e2_src(e[2])
     if e[0] == "tup":
         return "(" + ", ".join(e2_src(x) for x in e[1]) + ("," if len(e[1]) == 1 else "") + ")"
     if e[0] in ("cat", "add"):
@@ -715,7 +901,7 @@ class EGen(G.SGen):
             els = []
             if b > 0 and r.random() < 0.3:
                 els, b = self.block(b, depth - 1, in_loop and r.random() < 0.1, list(macros))
-            test = self.expr(1, False) if r.random() < 0.2 else None
+            test = self.expr(1, in_loop and r.random() < 0.6) if r.random() < 0.2 else None
             return ("for", tg, self.iterable(in_loop), test, body, strip_controls(els), rec), budget - b
         if depth > 0 and budget > 1 and k < 0.32:
             b = budget - 1
@@ -724,7 +910,20 @@ class EGen(G.SGen):
             if r.random() < 0.5:
                 return ("filt", f, strip_controls(body)), budget - b
             return ("setb", self.name(), strip_controls(body), f), budget - b
+        if 0.40 <= k < 0.45:
+            # x = x shapes: the value of a binder reads the very name it binds
+            x = self.name()
+            say = ("out", [("n", x)])
+            return r.choice([("with", [(x, ("n", x))], [say]), ("set", x, ("n", x)), ("for", x, ("n", x), None, [say], []),
+                             ("setb", x, [say]), ("with", [(x, ("cat", ("n", x), ("s", "w")))], [say, ("set", x, ("i", 0))])]), 2
         s, used = super().stmt(budget, depth, in_loop, macros)
+        if s[0] in ("callo", "callb") and r.random() < 0.3:
+            # extra positional / keyword arguments (they reach varargs / kwargs, or are refused)
+            i = 2 if s[0] == "callo" else 3
+            extra = [self.expr(1, in_loop) for _ in range(r.randint(0, 1))]
+            kws = [("kw", r.choice(self.pool + ["zz"]), self.expr(1, in_loop)) for _ in range(r.randint(0 if extra else 1, 2))]
+            kws = [kw for j, kw in enumerate(kws) if kw[1] not in [q[1] for q in kws[:j]]]
+            s = s[:i] + (list(s[i]) + extra + kws,) + s[i + 1:]
         if s[0] == "for":
             s = s[:5] + (strip_controls(s[5]),) + s[6:]     # the else part is not inside this loop
         # loop controls must not end up inside a macro / call block / filter / set block of the loop
@@ -757,12 +956,27 @@ class EGen(G.SGen):
                 p.append(say(("n", y)) if hdr[0] == "setb" else say(("attr", y, "v")))
         if "n" in self.pool and r.random() < 0.35:
             p = self.export_macros(p)
+        p = self.specialise(p)
         # late assignments, at the end of the top-level scope, of names used earlier (every position a name can
         # be read in is followed by a later store of that name in the same scope)
         for x in self.pool:
             if self.r.random() < 0.3 and mentions(x, p):
                 p.append(("set", x, self.expr(1)) if self.r.random() < 0.7 else ("setb", x, [("out", [self.expr(1)])]))
         return p
+
+    SPECIALS = ["kwargs", "varargs", "caller"]
+
+    def specialise(self, p):
+        """one pool name becomes kwargs / varargs / caller everywhere (targets, parameters, reads): the special
+        variables of macros used like ordinary identifiers"""
+        if self.r.random() >= 0.3:
+            return p
+        x = self.r.choice(self.pool)
+        sp = self.r.choice(self.SPECIALS)
+        if sp == "caller" and is_param(x, p):
+            sp = self.r.choice(self.SPECIALS[:2])     # an explicit `caller` parameter needs a default (compile error)
+        self.pool = [sp if n == x else n for n in self.pool]
+        return rename2(p, {x: sp})
 
     def export_macros(self, p):
         """macros defined in nested scopes are stored in attributes of a top-level namespace and called through
@@ -858,6 +1072,8 @@ def unsafe_names(p):
         elif k == "tup":
             for x in e[1]:
                 ex(x, acc)
+        elif k == "kw":
+            ex(e[2], acc)
 
     def tg(t):
         return [t] if isinstance(t, str) else list(t)
@@ -968,6 +1184,8 @@ def rename2(p, m):
             return ("attr", f(e[1]), e[2])
         if k == "tup":
             return ("tup", [ex(x) for x in e[1]])
+        if k == "kw":
+            return ("kw", e[1], ex(e[2]))      # keyword names are not variables: kept
         return e
 
     def tg(t):
@@ -1009,3 +1227,50 @@ def rename2(p, m):
         return s
 
     return [st(s) for s in p]
+
+
+def special_sweep():
+    """the special variables of a macro (kwargs / varargs / caller) used like ordinary identifiers: every
+    (earlier statement that binds the name somewhere, position that reads it, way of calling) once.
+    Returns [(program, dspec)]."""
+    out = []
+    say = lambda e: ("out", [e])      # noqa
+    for S in ("kwargs", "varargs", "caller"):
+        v = ("n", S)
+        decoys = [
+            [],
+            [("setb", "t", [("set", S, ("i", 1))])],
+            [("filt", "u", [("set", S, ("i", 1))])],
+            [("for", "i", ("s", "p"), None, [("set", S, ("i", 1))], [])],
+            [("with", [(S, ("i", 1))], [say(v)])],
+            [("if", ("n", "c"), [("set", S, ("i", 1))], [], [])],
+            [("if", ("n", "c"), [("set", S, ("i", 1))], [], [("set", S, ("i", 2))])],
+            [("macro", "q", [S] if S != "caller" else ["z"], [say(v)])],
+            [("set", S, ("i", 1))],
+            [("for", S, ("s", "p"), None, [say(v)], [])],
+            [("setb", S, [say(("s", "b"))])],
+        ]
+        uses = [
+            [say(v)],
+            [("with", [(S, v)], [say(v)])],
+            [("with", [("w", v)], [say(("n", "w"))])],
+            [("set", S, v), say(v)],
+            [("for", S, v, None, [say(v)], [say(("s", "none"))])],
+            [("filt", ("rep", v), [say(("s", "q"))])],
+            [("setb", "t", [say(v)]), say(("n", "t"))],
+            [("setb", S, [say(v)]), say(v)],
+            [("if", v, [say(("s", "T"))], [], [say(("s", "F"))])],
+            [("for", "i", ("s", "pq"), v, [say(("n", "i"))], [])],
+            [("for", "i", ("s", "pq"), None, [("for", "j", ("s", "r"), v, [say(("n", "j"))], [])], [])],
+            [],
+        ]
+        calls = {"kwargs": [("callo", "m", [("i", 1), ("kw", "zz", ("i", 2))])],
+                 "varargs": [("callo", "m", [("i", 1), ("i", 2), ("s", "e")])],
+                 "caller": [("callb", [], "m", [("i", 1)], [say(("s", "B"))])]}[S] + [("callo", "m", [("i", 1)])]
+        for d in decoys:
+            for u in uses:
+                for c in calls:
+                    prog = [("macro", "m", ["a"], d + u + [say(("n", "a"))]), c]
+                    for cv in ((True, False) if d and d[0][0] == "if" else (True,)):
+                        out.append((prog, {"c": ("plain", cv)}))
+    return out
